@@ -285,6 +285,17 @@ impl Server {
         Ok(origins)
     }
 
+    /// Build the application router without binding a socket
+    /// (verification hook: lets a simulator deliver requests in-process).
+    #[cfg(sos_verif)]
+    #[doc(hidden)]
+    pub fn verif_router(
+        state: ServerState,
+        backend: ServerBackend,
+    ) -> Result<Router> {
+        Self::router(state, backend, vec![])
+    }
+
     fn router(
         state: ServerState,
         backend: ServerBackend,
